@@ -69,7 +69,7 @@ def cleanup(wd: Path):
 
 _STATS = re.compile(r"(\d+) states generated, (\d+) distinct states found")
 _DEPTH = re.compile(r"The depth of the complete state graph search is (\d+)")
-_INV = re.compile(r"Error: Invariant (\S+) is violated")
+_INV = re.compile(r"Error: (?:Invariant (\S+) is violated|The invariant of (\S+) is equal to FALSE)")
 _PROP = re.compile(r"Error: (?:Action|Temporal) propert(?:y|ies) (\S+)? ?(?:is|were) violated")
 _COV = re.compile(r"^<(\w+) line (\d+), col (\d+) to line (\d+), col (\d+) of module (\w+)>: (\d+):(\d+)", re.M)
 
@@ -120,7 +120,7 @@ def run_tlc(
     res.finished = "Model checking completed" in out or "Finished in" in out
     m = _INV.search(out)
     if m:
-        res.violated = m.group(1)
+        res.violated = m.group(1) or m.group(2)
     elif "is violated" in out or "was violated" in out:
         m2 = re.search(r"Error: (.*violated.*)", out)
         res.violated = m2.group(1) if m2 else "property"
